@@ -137,6 +137,54 @@ Proof.
   exact (memo2d_recursive_at_most_once_dynamic S0 rule store r ty pred R C hist fuel p0 s0 p' s lg out plog).
 Qed.
 
+(* `built R C r ty n` (Proofs/Memo2DProofs.v) := exists g row col, g is a well-shaped R x C grid, row < R, col < C and
+   n = get_neighbourhood g R C r row col ty. *)
+(* memoize=True, exactly once each, at the level of the whole call (the 2D analogue of C09_memo_true_once): for a
+   pure rule that reads only the unmasked entries of the neighbourhoods the engine builds, there are rows with
+   plain array = memoised array = hist ++ rows, the (masked-filled) keys of the logged rule calls are pairwise
+   distinct, and a key is logged IFF it is the key of the neighbourhood of some cell of some grid among rows
+   0..T-2 of that (plain) trajectory *)
+Theorem C09_memo2d_true_once_trajectory :
+  forall (f : nbhd2 -> Z) (store : Z -> Z) (r : nat) (ty : nbhd_type) (R C : nat) (hist : list grid) (T : nat),
+  (forall n n', built R C r ty n -> built R C r ty n' ->
+                nb_mask n = nb_mask n' -> unmasked n = unmasked n' -> f n = f n') ->
+  1 <= R -> 1 <= C -> r <= Nat.min R C ->
+  length (last hist []) = R /\ Forall (fun row => length row = C) (last hist []) -> 1 <= T ->
+  exists rows,
+    arr2_of (evolve2d_mode_fixed (logged2 (pure_rule2 f)) store Plain r ty (tt, []) hist T) = Ok (hist ++ rows) /\
+    arr2_of (evolve2d_mode_fixed (logged2 (pure_rule2 f)) store Memo r ty (tt, []) hist T) = Ok (hist ++ rows) /\
+    NoDup (map call2_key (log2_of (evolve2d_mode_fixed (logged2 (pure_rule2 f)) store Memo r ty (tt, []) hist T))) /\
+    forall k, In k (map call2_key (log2_of (evolve2d_mode_fixed (logged2 (pure_rule2 f)) store Memo r ty (tt, []) hist T))) <->
+      exists t row col, 1 <= t < T /\ row < R /\ col < C /\
+        k = memo_key (get_neighbourhood (nth (t - 1) (last hist [] :: rows) []) R C r row col ty).
+Proof.
+  intros f store r ty R C hist T Hum.
+  exact (memo2d_true_once_trajectory unit (pure_rule2 f) store r ty f R C hist T tt (answers_pure f) Hum).
+Qed.
+
+(* callable timesteps: `states` = the grids of this call (the starting grid and the ones produced); the rule is
+   entered exactly once for each distinct key among the neighbourhoods of all of them but the last *)
+Theorem C09_memo2d_true_once_trajectory_callable :
+  forall (f : nbhd2 -> Z) (store : Z -> Z) (r : nat) (ty : nbhd_type) (R C : nat) (hist : list grid)
+         (P : Type) (pred : P -> list grid -> nat -> P * bool) (fuel : nat) (p0 : P) p' s lg out plog,
+  (forall n n', built R C r ty n -> built R C r ty n' ->
+                nb_mask n = nb_mask n' -> unmasked n = unmasked n' -> f n = f n') ->
+  1 <= R -> 1 <= C -> r <= Nat.min R C ->
+  length (last hist []) = R /\ Forall (fun row => length row = C) (last hist []) ->
+  evolve2d_mode_dynamic (logged2 (pure_rule2 f)) store pred Memo r ty fuel p0 (tt, []) hist = Some (p', (s, lg), out, plog) ->
+  exists states,
+    out = removelast hist ++ states /\
+    dyn_arr2_of (evolve2d_mode_dynamic (logged2 (pure_rule2 f)) store pred Plain r ty fuel p0 (tt, []) hist) = Some (out, plog) /\
+    NoDup (map call2_key lg) /\
+    forall k, In k (map call2_key lg) <->
+      exists j row col, j < length states - 1 /\ row < R /\ col < C /\
+        k = memo_key (get_neighbourhood (nth j states []) R C r row col ty).
+Proof.
+  intros f store r ty R C hist P pred fuel p0 p' s lg out plog Hum HR HC Hr Hwf H.
+  exact (memo2d_true_once_trajectory_dynamic unit (pure_rule2 f) store r ty R C P pred HR f hist fuel p0 tt p' s lg out plog
+           (answers_pure f) Hum HC Hr Hwf H).
+Qed.
+
 (* never more often than the unmemoised evolution, which enters the rule exactly R*C*(T-1) times *)
 Theorem C09_memo2d_never_more_than_plain :
   forall (S0 : Type) (rule : rule2 S0) (store : Z -> Z) (r : nat) (ty : nbhd_type) (R C : nat)
@@ -181,3 +229,5 @@ Print Assumptions C09_memo2d_true_once_callable.
 Print Assumptions C09_memo2d_recursive_at_most_once.
 Print Assumptions C09_memo2d_recursive_at_most_once_callable.
 Print Assumptions C09_memo2d_never_more_than_plain.
+Print Assumptions C09_memo2d_true_once_trajectory.
+Print Assumptions C09_memo2d_true_once_trajectory_callable.
